@@ -31,6 +31,15 @@ def run(item):
                 if past is not None:
                     t.fit(past)
                     t.transform(past)
+            if fmt == "array" and x["L"] % 2 == 1 and x.get("D", 1) == 1:
+                # the same object after a parameter sweep: used with another width / stride, then set_params and re-fitted
+                t.set_params(window_width=x["width"] + 1, window_stride=x["stride"] + 1)
+                try:
+                    t.fit([np.arange(x["width"] + 4, dtype=np.float64)])
+                    t.transform([np.arange(x["width"] + 4, dtype=np.float64)])
+                except Exception:  # noqa
+                    pass
+                t.set_params(window_width=x["width"], window_stride=x["stride"])
             r = t.fit(X)
             if r is not t:
                 fails.append({"what": "fit does not return self"})
@@ -56,6 +65,14 @@ def run(item):
             if o.shape != exp.shape or not np.allclose(o, exp):
                 fails.append({"what": "SequentialDifferenceTransformer", "got": o.tolist()[:4], "shape": list(o.shape),
                               "expected": exp.tolist()[:4]})
+            # the same object after a parameter sweep: fitted with another stride, re-parameterised (set_params), re-fitted
+            sd2 = SequentialDifferenceTransformer(stride=1 if x["width"] - 1 != 1 else 2)
+            sd2.fit([seq_of(x)])
+            sd2.set_params(stride=x["width"] - 1)
+            o2 = np.asarray(sd2.fit([seq_of(x)]).transform([seq_of(x)])[0], dtype=np.float64)
+            if o2.shape != exp.shape or not np.allclose(o2, exp):
+                fails.append({"what": "SequentialDifferenceTransformer re-fitted after set_params(stride)", "got": o2.tolist()[:4],
+                              "shape": list(o2.shape), "expected": exp.tolist()[:4]})
         except Exception as e:  # noqa
             fails.append({"what": "SequentialDifferenceTransformer raised", "exc": type(e).__name__ + ": " + str(e)[:160]})
     return {"ok": not fails, "fails": fails[:4]}
